@@ -552,3 +552,24 @@ def c19(run):
 
 
 MODES.update({"C05": "syntax", "C19": "syntax"})
+
+
+# ------------------------------------------------------------------ C14
+@check("C14")
+def c14(run):
+    run.rule = ("spec/Diag.tla: exactly one bad entry (4 kinds of syntax error stopping at entry line 1/2/3, unbalanced, false assertion on posting "
+                "line 2/3/5, two amount-less postings, zero rate, same-commodity rate) after every sequence of <=2 (thorough 3) blocks out of "
+                "{1 blank line, 2 blank lines, line of blanks, multi-byte comment, 3-line entry, 4-line entry with metadata}, LF or CRLF, in the root "
+                "file / an included file / a file included by an included file (also through ..), optionally followed by a valid entry; "
+                "non-trivial = every arrangement")
+    run.assumptions += ["a syntax error may show lines from the entry's first line to the line with the first invalid token; other faults may show any line of the entry; a false assertion must point at its posting's line",
+                        "file and line numbers are extracted from the rendered diagnostic (` --> path:L:C`, gutter numbers) and from LoadError::Parse's path; wording and columns are not compared",
+                        "checked on FakeFileSystem and on a real directory; `okane balance` (in-process) on every 7th arrangement"]
+    cfg = "Diag_quick.cfg" if run.tier == "quick" else "Diag_thorough.cfg"
+    nd, n, st = tlc_gen("MCDiag.tla", cfg, "C14-gen", workers=4, timeout=1700)
+    run.add_model(st)
+    feed(run, "diag", nd)
+    run.exhaustive = True
+
+
+MODES["C14"] = "diag"
